@@ -244,6 +244,9 @@ type c40Recorder struct {
 	all     uint64 // every dispatched event, the monitor's pokes of Slow included (probe phases only)
 	evHash  uint64
 	slow    *c40Slow // nil without the harness component
+	// first (may be nil) is called once, on the engine goroutine, when the
+	// first event has been handled: the run loop is in progress from here on.
+	first func()
 	engine  timing.Engine
 	probe   *c40Probe // probe mode only: publishes the engine phase (this *does* synchronise; probe mode does not rely on the race detector)
 	rspHash uint64
@@ -289,8 +292,14 @@ func mix(h uint64, b []byte) uint64 {
 
 func (r *c40Recorder) Func(ctx hooking.HookCtx) {
 	if ctx.Pos != timing.HookPosBeforeEvent {
-		if r.probe != nil && ctx.Pos == timing.HookPosAfterEvent {
-			r.probe.phase.Store(2 * r.all)
+		if ctx.Pos == timing.HookPosAfterEvent {
+			if r.probe != nil {
+				r.probe.phase.Store(2 * r.all)
+			}
+			if r.first != nil {
+				r.first()
+				r.first = nil
+			}
 		}
 		return
 	}
@@ -737,8 +746,8 @@ func (s *c40Sim) outcome(c c40Case, finished bool, pan string) c40Outcome {
 
 const c40LegDeadline = 90 * time.Second
 
-// c40Announce is what the child writes to <dir>/port right before the
-// monitored run starts: the parent process runs the HTTP client. (The client
+// c40Announce is what the child writes to <dir>/port once the monitored run is
+// in progress (see runLeg): the parent process runs the HTTP client. (The client
 // is deliberately not a goroutine of the simulation process: under -race every
 // incidental synchronisation between the engine goroutine and an in-process
 // client — pooled objects, atomics — would travel over the loopback connection
@@ -748,9 +757,16 @@ type c40Announce struct {
 }
 
 // runLeg runs the assembled simulation to completion on a goroutine of its own
-// with a bounded wait. announce (may be nil) is called right before the engine
-// goroutine starts; afterRun (may be nil) is called once Run has returned and
-// must return before the outcome is taken.
+// with a bounded wait. announce (may be nil) is called on the engine goroutine
+// when the first event has been handled, i.e. when the simulation runs: the
+// property is about requests made while a simulation runs, and a request that
+// arrives while Run() is only starting meets a different, engine-level problem
+// (Pause() returns at once when no run loop is active yet, and a Run() that
+// starts inside the pauser's bracket reads the event queue — noMoreEvent() —
+// before it looks at the pause flag: see TestReproC40PauseBeforeRun). The file
+// write is the only thing the engine goroutine does that an HTTP goroutine can
+// synchronise with, once, before any request exists. afterRun (may be nil) is
+// called once Run has returned and must return before the outcome is taken.
 func (s *c40Sim) runLeg(c c40Case, announce func(), afterRun func() bool) (o c40Outcome, startNS, endNS int64, hang bool) {
 	s.agent.TickLater()
 
@@ -759,9 +775,7 @@ func (s *c40Sim) runLeg(c c40Case, announce func(), afterRun func() bool) (o c40
 		start, end int64
 	}
 	done := make(chan fin, 1)
-	if announce != nil {
-		announce()
-	}
+	s.rec.first = announce
 	go func() {
 		var f fin
 		func() {
